@@ -112,7 +112,8 @@ let () =
        | "predict" ->
            let a = lmx_of_mat (Caseio.get_mat c "A") and qm = lmx_of_mat (Caseio.get_mat c "Q") in
            let sp = Caseio.get_int c "skip_pred" <> 0 and ss = Caseio.get_int c "skip_state" <> 0 in
-           let (res, w) = c04_predict fops sq_oracle eg_oracle (nat_of_int n) (nat_of_int q) generic alpha beta kappa sp ss a qm cs ws in
+           let exo = if Caseio.has c "exo_c" then Some (lmx_of_mat (Caseio.get_mat c "exo_c")) else None in
+           let (res, w) = c04_predict fops sq_oracle eg_oracle (nat_of_int n) (nat_of_int q) generic alpha beta kappa sp ss a qm exo cs ws in
            Caseio.out_int "components" (List.length res);
            List.iteri (fun i (mean, cov) ->
                Caseio.out_mat_shape (Printf.sprintf "mean%d" i) n 1 (mat_of_lmx mean);
@@ -124,7 +125,7 @@ let () =
            List.iteri (fun i (mean, cov) ->
                Caseio.out_mat_shape (Printf.sprintf "kf_mean%d" i) n 1 (mat_of_lmx mean);
                Caseio.out_mat_shape (Printf.sprintf "kf_cov%d" i) n n (mat_of_lmx cov))
-             (c04_kf_predict fops (nat_of_int n) f qeff cs)
+             (c04_kf_predict fops (nat_of_int n) f qeff exo cs)
        | _ ->
            let m = Caseio.get_int c "m" in
            let a = lmx_of_mat (Caseio.get_mat c "A") and r = lmx_of_mat (Caseio.get_mat c "R") in
@@ -134,8 +135,9 @@ let () =
            let old_cs = comps_of (Caseio.get_mat c "old_means") (Caseio.get_mat c "old_covs") n in
            let old_ws = flist (Caseio.get_mat c "old_weights") in
            let ((res, w), lik) =
+             let mnoise = if Caseio.has c "mnoise" then Caseio.get_int c "mnoise" else 0 in
              let warm = if Caseio.has c "warm" && Caseio.get_int c "warm" <> 0 then Some (lmx_of_mat (Caseio.get_mat c "y0")) else None in
-             c04_correct fops sq_oracle eg_oracle (nat_of_int n) (nat_of_int q) (nat_of_int m) generic alpha beta kappa skip a r y fail warm cs ws old_cs old_ws in
+             c04_correct fops sq_oracle eg_oracle (nat_of_int n) (nat_of_int q) (nat_of_int m) generic alpha beta kappa skip a r y fail warm (nat_of_int mnoise) cs ws old_cs old_ws in
            Caseio.out_int "components" (List.length res);
            List.iteri (fun i (mean, cov) ->
                Caseio.out_mat_shape (Printf.sprintf "mean%d" i) n 1 (mat_of_lmx mean);
